@@ -302,6 +302,13 @@ func (d *distinctEngine) dedupConstructOnPath(f *ssa.Function, v ssa.Value, dept
 		case *ssa.MakeMap:
 			// a map on the derivation (ranged into the result, or handed to a helper)
 			found = true
+		case *ssa.Parameter:
+			// the parameter of a function literal (stage, err = ids, stepErr inside step :=
+			// func(ids []string, stepErr error)): it holds what the literal is invoked with, which
+			// is not followed here
+			if y.Parent() != nil && y.Parent().Parent() != nil {
+				found = true
+			}
 		case *ssa.MakeSlice:
 			// a pre-sized list filled by index: what is stored, the lists the filling loops run
 			// over, and the list its length is taken from
@@ -2072,6 +2079,11 @@ func ruleNoSkip(w *World, r *Report, fn string) {
 						continue
 					}
 				}
+				// an effect on the way out of the function for good (a failure recorded before a
+				// return) is not the recording of an element of the pipeline
+				if !reachableFrom(b, nil)[header] {
+					continue
+				}
 				stop[b] = true
 				n++
 			}
@@ -2373,6 +2385,10 @@ func ruleCacheKey(w *World, r *Report, in map[*ssa.Function]bool) {
 						if equivValue(c, a) {
 							found = true
 						}
+					}
+					// the argument is the key itself (a struct value handed over whole)
+					if equivValue(mu.Key, a) {
+						found = true
 					}
 					if !found {
 						missing = describeValue(a)
